@@ -73,7 +73,7 @@ StMap(s) == LET recs == {s.sts[i] : i \in DOMAIN s.sts}
             IN [i \in 1..Len(q) |-> <<q[i].key, q[i].repl>>]
 
 Result(f, s) ==
-    LET r == SubstF(f, IdMap(s), StMap(s))
+    LET r == SubstConsuming(f, IdMap(s), StMap(s))
     IN IF r = f THEN f ELSE IntroduceVars(r, s.decls, PrefixHeads)
 
 Choose ==
@@ -84,6 +84,8 @@ Choose ==
          /\ Cardinality(IK) <= MaxIdKeys /\ Cardinality(SK) <= MaxStKeys
          /\ IK \cup SK # {}
          /\ NonNested(IK)
+         \* (inputs with sharing) one key per identity
+         /\ \A i, j \in IK : i # j => D0[i].id # D0[j].id
          \* one representative position per structural key shape
          /\ \A i, j \in SK : i # j => ShapeN(D0[i]) # ShapeN(D0[j])
          /\ \A i \in SK : \A j \in 1..Len(D0) :
@@ -116,7 +118,8 @@ Choose ==
 
 GInit == Init /\ phase = "build" /\ simp = <<>>
 
-GNext == \/ (phase = "build" /\ (Open \/ Close \/ \E l \in Labels : AddLeaf(l))
+GNext == \/ (phase = "build" /\ (Open \/ Close \/ \E l \in Labels : AddLeaf(l)
+                                  \/ \E n \in AllNodes(stack) : Share(n))
              /\ UNCHANGED <<phase, simp>>)
          \/ Choose
 
@@ -138,6 +141,22 @@ ResultTokensAccounted ==
       TokSet(Tokens(R)) \subseteq
         TokSet(Tokens(stack[1])) \cup {LP, RP, <<"z">>, <<"w">>}
         \cup UNION {TokSet(Tokens(d)) : d \in Decls}
+
+(* on trees, consuming an identity key changes nothing *)
+ConsumingAgreesOnTrees ==
+    phase = "simp" /\ DistinctIds(stack[1]) =>
+       SubstConsuming(stack[1], IdMap(simp), StMap(simp)) =
+          SubstF(stack[1], IdMap(simp), StMap(simp))
+
+(* "the one occurrence carrying a given identity": a single identity key   *)
+(* replaced by something new removes exactly one of the positions that     *)
+(* carry the identity, however many there are                              *)
+OneOccurrencePerKey ==
+    phase = "simp" /\ DOMAIN simp.sts = {} /\ simp.decls = <<>>
+       /\ Cardinality(DOMAIN simp.ids) = 1 =>
+       LET k == simp.ids[CHOOSE i \in DOMAIN simp.ids : TRUE]
+       IN k.kind \in {"leaf", "tree"} =>
+             IdCount(R, k.id) = IdCount(stack[1], k.id) - 1
 
 (* untouched top-level expressions are the very same nodes *)
 UntouchedKept ==
